@@ -74,7 +74,7 @@ def pdf_chain(prog, rep):
 
 def finite(prog, rep):
     for q in (f"{JM}.MultivariateModel.cdf", f"{JM}.TransformedModel.cdf", f"{JM}.TransformedModel.empirical_cdf"):
-        fn = prog.func(q)
+        fn = prog.implementation(q)   # a cdf that only delegates to the inherited one is the inherited one
         rep.analysed(fn)
         b = builder(prog, fn)
         # every later use of x refers to asarray_chkfinite(x)
@@ -229,10 +229,10 @@ def argorder(prog, rep):
     rev = ("sub", rng, ("slice", NONE, NONE, ("const", -1)))
     # --- joint cdf (MultivariateModel and TransformedModel): identity order, limits (0, x[i, j]) for j in range(n_dim)
     for q in (f"{JM}.MultivariateModel.cdf", f"{JM}.TransformedModel.cdf"):
-        fn = prog.func(q)
+        fn = prog.implementation(q)
         rep.analysed(fn)
         b = builder(prog, fn)
-        ao = _integral_func(prog, rep, q, "cdf")
+        ao = _integral_func(prog, rep, fn.qualname, "cdf")
         if ao is not None:
           rep.check(ao == rng, "C06.argorder", f"{q}:order", fn.where(), "arg_order = list(range(n_dim))",
                   f"joint cdf integrates in model order; arg_order must be list(range(n_dim)), found {show(ao)[:100] if ao else None}")
